@@ -222,6 +222,66 @@ fn token_documents(max_len: usize) -> Vec<(String, String)> {
     out
 }
 
+/// Reference-graph documents: every assignment of reference lists to three global components.
+/// Family `refs`: three global elements, each holding an ordered list of 0..2 `ref=`s to any of the
+/// three (self included). Family `bases`: three complex types, each with `base=` none or any of the
+/// three and one member that is absent or a `ref=` to one of three global elements G0..G2 (Gi is of
+/// type Ti), the elements declared before or after the types. All cycles, self references, forward
+/// and backward references over three components are in there.
+fn reference_graph_documents(tier: &str) -> Vec<(String, String)> {
+    let open = "<xs:schema xmlns:xs=\"http://www.w3.org/2001/XMLSchema\" xmlns:t=\"urn:t\" targetNamespace=\"urn:t\" elementFormDefault=\"qualified\">";
+    let close = "</xs:schema>";
+    let mut out = vec![];
+    // ordered lists of length 0..2 over 3 targets
+    let mut lists: Vec<Vec<usize>> = vec![vec![]];
+    for a in 0..3 {
+        lists.push(vec![a]);
+    }
+    for a in 0..3 {
+        for b in 0..3 {
+            lists.push(vec![a, b]);
+        }
+    }
+    for l0 in &lists {
+        for l1 in &lists {
+            for l2 in &lists {
+                let mut body = String::new();
+                for (i, l) in [l0, l1, l2].iter().enumerate() {
+                    body.push_str(&format!("<xs:element name=\"E{i}\"><xs:complexType><xs:sequence>"));
+                    for t in l.iter() {
+                        body.push_str(&format!("<xs:element ref=\"t:E{t}\" minOccurs=\"0\"/>"));
+                    }
+                    body.push_str("</xs:sequence></xs:complexType></xs:element>");
+                }
+                out.push((format!("refs:{l0:?}{l1:?}{l2:?}"), format!("{open}{body}{close}")));
+            }
+        }
+    }
+    let placements: &[bool] = if tier == "quick" { &[false] } else { &[false, true] };
+    for elems_first in placements {
+        for code in 0..(16u32.pow(3)) {
+            let mut types = String::new();
+            let mut c = code;
+            for i in 0..3 {
+                let base = c % 4;
+                let member = (c / 4) % 4;
+                c /= 16;
+                let m = if member == 0 { String::new() } else { format!("<xs:element ref=\"t:G{}\" minOccurs=\"0\"/>", member - 1) };
+                let seq = format!("<xs:sequence><xs:element name=\"Own{i}\" type=\"xs:string\"/>{m}</xs:sequence>");
+                if base == 0 {
+                    types.push_str(&format!("<xs:complexType name=\"T{i}\">{seq}</xs:complexType>"));
+                } else {
+                    types.push_str(&format!("<xs:complexType name=\"T{i}\"><xs:complexContent><xs:extension base=\"t:T{}\">{seq}</xs:extension></xs:complexContent></xs:complexType>", base - 1));
+                }
+            }
+            let elems: String = (0..3).map(|i| format!("<xs:element name=\"G{i}\" type=\"t:T{i}\"/>")).collect();
+            let body = if *elems_first { format!("{elems}{types}") } else { format!("{types}{elems}") };
+            out.push((format!("bases:{code:03x}:{}", if *elems_first { "elements-first" } else { "types-first" }), format!("{open}{body}{close}")));
+        }
+    }
+    out
+}
+
 struct Job {
     seed: String,
     file: String,
@@ -322,6 +382,11 @@ pub fn check(tier: &str) -> i32 {
         n_tok += 1;
         jobs.push(Job { seed: "token-grammar".into(), file: "t.xsd".into(), kind: "token-document".into(), detail: d, depth: 0, case: c });
     }
+    let mut n_graph = 0;
+    for (d, text) in reference_graph_documents(tier) {
+        n_graph += 1;
+        jobs.push(Job { seed: "reference-graphs".into(), file: "t.xsd".into(), kind: "reference-graph".into(), detail: d, depth: 0, case: Case { files: vec![("t.xsd".into(), text)], start: "t.xsd".into() } });
+    }
     // non-XML and edge texts
     for (d, t) in [("empty", ""), ("whitespace", "  \n"), ("bom-only", "\u{feff}"), ("not-xml", "hello world"), ("json", "{\"a\":1}"), ("huge-depth", &"<a>".repeat(20000)), ("entity-bomb-ish", "<!DOCTYPE a [<!ENTITY x \"xxxxxxxxxx\">]><a>&x;&x;&x;</a>"), ("nul", "<a>\u{0}</a>")] {
         jobs.push(Job { seed: "raw-text".into(), file: "t.xsd".into(), kind: "raw-text".into(), detail: d.into(), depth: 0, case: Case::single("t.xsd", t) });
@@ -407,7 +472,7 @@ pub fn check(tier: &str) -> i32 {
     rep.set("evaluations", json!(done));
     rep.set("max_depth", json!(if tier == "thorough" { 2 } else { 1 }));
     rep.set("exhaustive", json!(!stopped));
-    rep.set("bound", json!(format!("all single structural mutations (delete/duplicate/move/swap element, delete/empty/alter attribute, alter namespace declarations, retarget every QName attribute to every declared name / itself / undeclared prefix / dangling name, rename to an existing name, truncate at every tag boundary, replace root) of {} seed inputs{}; all token documents of <= {} tokens over an {}-token alphabet ({} documents); raw non-XML texts", seeds.len(), if tier == "thorough" { "; all pairs of mutations for the generated seeds s0 and w0; signature-reduced single mutations of the large inputs" } else { "" }, tok_len, TOKENS.len(), n_tok)));
+    rep.set("bound", json!(format!("all single structural mutations (delete/duplicate/move/swap element, delete/empty/alter attribute, alter namespace declarations, retarget every QName attribute to every declared name / itself / undeclared prefix / dangling name, rename to an existing name, truncate at every tag boundary, replace root) of {} seed inputs{}; all token documents of <= {} tokens over an {}-token alphabet ({} documents); {} reference-graph documents (three global elements with every ordered list of 0-2 ref= each; three complex types with every base= and every member ref= to an element of one of the types); raw non-XML texts", seeds.len(), if tier == "thorough" { "; all pairs of mutations for the generated seeds s0 and w0; signature-reduced single mutations of the large inputs" } else { "" }, tok_len, TOKENS.len(), n_tok, n_graph)));
     rep.set("per_seed", json!(per_seed));
     rep.set("outcome_classes", json!(classes));
     rep.set("distinct_error_kinds", json!(err_kinds.len()));
